@@ -25,7 +25,7 @@ func zzKey() *PrivateKey {
 	return sk
 }
 
-//zz: prop=C01 tier=quick backend=bv use=pkeuf,keccakuf timeout=300
+//zz: prop=C01 also=C03 tier=quick backend=bv use=pkeuf,keccakuf timeout=300
 func ZZ_C01_kyber768_r3_decaps_is_FO_transform() {
 	sk := zzKey()
 	ct := make([]byte, CiphertextSize)
